@@ -25,12 +25,31 @@ def run(ck, tier, seed):
     # L3: free-running threads under ThreadSanitizer, results validated against the sequential reference by TLC
     exe = vlib.build_harness("tsan")
     ck.extra["impl"] = {}
-    runs = RUNS[:3] if q else RUNS
+    from fontgen import sfnt, silf, feat
+    runs = RUNS[:4] if q else RUNS
     for font, text, d in runs:
-        for rep in range(1 if q else 4):
+        # texts: corpus lines plus lines that use the font's pseudo-glyph characters (Silf pseudo map, independent reader)
+        S = sfnt.Sfnt(os.path.join(corpus.F, font))
+        pseudos = [u for u, g in silf.read_silf(S.table("Silf"))["subtables"][0]["pseudos"]][:24]
+        lines = [l.strip() for l in open(os.path.join(corpus.T, text), encoding="utf-8") if len(l.strip()) >= 3][:150]
+        extra = []
+        for i, u in enumerate(pseudos):
+            base = lines[i % len(lines)][:6]
+            extra.append(base[:2] + chr(u) + base[2:4] + chr(pseudos[(i + 1) % len(pseudos)]) + base[4:])
+        tf_path = os.path.join(tmp, font + ".txt")
+        open(tf_path, "w", encoding="utf-8").write("\n".join(extra * 3 + lines) + "\n")
+        # labels: a name table in which every second feature label exists only under the Unicode platform
+        fm = sfnt.read_feat_sill_name(S)
+        ids = sorted({f["label"] for f in fm["feats"]} | {x for f in fm["feats"] for x in f["setlabels"]}) if fm else []
+        name_path = os.path.join(tmp, font + ".name.hex")
+        open(name_path, "w").write(feat.name_table_dual(ids).hex() if ids else "")
+        for rep in range(2 if q else 6):
             trace = os.path.join(tmp, "%s.%d.ndjson" % (font, rep))
             nth = 8 if rep % 2 == 0 else 16
-            h = vlib.run_harness(exe, ["threads", os.path.join(corpus.F, font), os.path.join(corpus.T, text), d, nth, 2 if q else 4, trace, seed + rep], timeout=3000)
+            args = ["threads", os.path.join(corpus.F, font), tf_path, d, nth, 2 if q else 4, trace, seed + rep]
+            if ids and rep % 2 == 1:
+                args.append(name_path)
+            h = vlib.run_harness(exe, args, timeout=3000)
             vlib.absorb(ck, h)
             if h.fault:
                 if "data race" in h.fault.get("report", "") or h.fault.get("kind") == "sanitizer":
